@@ -1,7 +1,8 @@
 (* Model/WfOps.v — the class of portable calls of property C01 as a computable predicate on the
    CURRENT state of the in-memory filesystem and the next call: wf_op = wf_op_ord || wf_below.
    wf_op_ord: the "ordinary POSIX preconditions" (the call is carried out, or fails with
-   EEXIST / ENOENT); wf_below: a creating call whose name passes through a regular file (refused
+   EEXIST / ENOENT — Rename of a missing source also with ENOTDIR when its directory exists and the
+   target passes through a regular file, as rename(2) answers); wf_below: a creating call whose name passes through a regular file (refused
    with ENOTDIR on both sides, nothing changes).  Definitions only. *)
 From AF Require Import Lib.Bytes Lib.Path Lib.Ops Gen.Consts Model.MemFile Model.MemFs.
 Local Open Scope Z_scope.
